@@ -2,7 +2,7 @@
    The compact scan is the generic conjunction scan with needf c = max 1 (size c). *)
 From Coq Require Import List NArith ZArith Bool Permutation.
 From BE Require Import Model.Scan Model.Cursor Proofs.ScanProof Proofs.Refine Proofs.ConcreteScan.
-From BE Require Model.Index Gen.IdsGen.
+From BE Require Model.GoVal Model.Parsers Model.Index Gen.IdsGen Proofs.RoaringProof Proofs.IndexBuildInv Proofs.IndexCorrect.
 Import ListNotations.
 Local Open Scope N_scope.
 
@@ -30,5 +30,40 @@ Proof. exact cp_loop_correct. Qed.
 Theorem C02_need_is_the_codes : forall c, c < 2^60 -> Z.to_nat (Z.max 1 (IdsGen.ConjID_Size c)) = cneed c.
 Proof. exact cneed_eq. Qed.
 
+(* END TO END over the executable model (Model/Index.v), compact builder, default-container fields, any
+   parser configuration: same statement as C01's, for the single-container index (see Props/C01.v for
+   the reading of conj_sat) *)
+Theorem C02_compact_index_exact : forall pol thr parsers ds st os q,
+  Index.add_documents false (Index.new_builder Index.ICompact pol thr parsers) ds = (st, os) ->
+  Forall (eq Index.AddOk) os -> NoDup (map Index.d_id ds) ->
+  (forall d cj, In d ds -> In cj (Index.d_conjs d) -> NoDup (map fst cj)) ->
+  (pol <> Index.PolSkip \/ forall d cj, In d ds -> In cj (Index.d_conjs d) -> IndexBuildInv.conj_ok parsers cj = true) ->
+  NoDup (map fst q) ->
+  (forall f v, In (f, v) q -> exists ids, Parsers.parse_assign (parsers f) v = GoVal.POk ids) ->
+  exists hits,
+    Index.retrieve_compact_hits (Index.build_index st) q = Index.ROk hits /\
+    NoDup (map snd hits) /\
+    (forall d k cj cid, IndexCorrect.has_conj ds d k cj cid ->
+       (In cid (map snd hits) <-> IndexCorrect.conj_sat parsers q cj = true)) /\
+    (forall h, In h hits -> fst h = IdsGen.ConjID_DocID (snd h) /\
+                            exists d k cj, IndexCorrect.has_conj ds d k cj (snd h)).
+Proof. exact IndexCorrect.compact_index_correct. Qed.
+
+Theorem C02_compact_documents_exact : forall pol thr parsers ds st os q,
+  Index.add_documents false (Index.new_builder Index.ICompact pol thr parsers) ds = (st, os) ->
+  Forall (eq Index.AddOk) os -> NoDup (map Index.d_id ds) ->
+  (forall d cj, In d ds -> In cj (Index.d_conjs d) -> NoDup (map fst cj)) ->
+  (pol <> Index.PolSkip \/ forall d cj, In d ds -> In cj (Index.d_conjs d) -> IndexBuildInv.conj_ok parsers cj = true) ->
+  NoDup (map fst q) ->
+  (forall f v, In (f, v) q -> exists ids, Parsers.parse_assign (parsers f) v = GoVal.POk ids) ->
+  exists docs,
+    Index.retrieve (Index.build_index st) q = Index.ROk docs /\
+    (forall d, In d ds ->
+       (In (Index.d_id d) docs <-> exists cj, In cj (Index.d_conjs d) /\ IndexCorrect.conj_sat parsers q cj = true)) /\
+    (forall z, In z docs -> exists d, In d ds /\ z = Index.d_id d).
+Proof. intros pol thr parsers. exact (IndexCorrect.retrieve_docs_correct Index.ICompact pol thr parsers). Qed.
+
 Print Assumptions C02_generic_scan_exact.
+Print Assumptions C02_compact_index_exact.
+Print Assumptions C02_compact_documents_exact.
 Print Assumptions C02_concrete_compact_loop_exact.
